@@ -13,6 +13,7 @@ import (
 	"strconv"
 	"strings"
 	"syscall"
+	"time"
 
 	"verif/internal/core"
 )
@@ -202,4 +203,68 @@ func KillAt(bin, root string, req core.Req, ref *Trace, target int, scratch stri
 		}
 	}
 	return strings.Join(want, "|") == strings.Join(got, "|"), t, nil
+}
+
+// RunStdinFault runs the command under strace with its standard input coming from a named pipe that delivers
+// the given chunks one by one, and injects `error` (e.g. "EIO") into the k-th read(2) on that pipe (k>=1).
+// Returns exit status, stdout, stderr and whether the injected read shows up in the trace.
+func RunStdinFault(bin, cwd string, args []string, chunks [][]byte, k int, errno, scratch string) (exit int, out, errOut []byte, injected bool, err error) {
+	fifo := filepath.Join(scratch, "stdin.fifo")
+	os.Remove(fifo)
+	if err = syscall.Mkfifo(fifo, 0o600); err != nil {
+		return
+	}
+	defer os.Remove(fifo)
+	tf := filepath.Join(scratch, "strace-stdin.out")
+	os.Remove(tf)
+	sargs := []string{"-f", "-y", "-o", tf, "-e", "trace=read", "-e", fmt.Sprintf("inject=read:error=%s:when=%d", errno, k), "-P", fifo, bin}
+	sargs = append(sargs, args...)
+	cmd := exec.Command("strace", sargs...)
+	cmd.Dir = cwd
+	cmd.Env = core.CmdEnv("PWD=" + cwd)
+	// open the read end without blocking on the writer, then hand it to the child
+	rfd, oerr := os.OpenFile(fifo, os.O_RDONLY|syscall.O_NONBLOCK, 0)
+	if oerr != nil {
+		err = oerr
+		return
+	}
+	// the child must see a blocking descriptor
+	if ferr := syscall.SetNonblock(int(rfd.Fd()), false); ferr != nil {
+		err = ferr
+		return
+	}
+	cmd.Stdin = rfd
+	var o, e bytes.Buffer
+	cmd.Stdout, cmd.Stderr = &o, &e
+	wfd, werr := os.OpenFile(fifo, os.O_WRONLY, 0)
+	if werr != nil {
+		rfd.Close()
+		err = werr
+		return
+	}
+	if err = cmd.Start(); err != nil {
+		rfd.Close()
+		wfd.Close()
+		return
+	}
+	rfd.Close()
+	go func() {
+		for _, c := range chunks {
+			wfd.Write(c)
+			time.Sleep(30 * time.Millisecond) // let the reader take this chunk in a read of its own
+		}
+		wfd.Close()
+	}()
+	werr = cmd.Wait()
+	if werr != nil {
+		if ee, ok := werr.(*exec.ExitError); ok {
+			exit = ee.ExitCode()
+		} else {
+			err = werr
+			return
+		}
+	}
+	raw, _ := os.ReadFile(tf)
+	injected = bytes.Contains(raw, []byte("(INJECTED)"))
+	return exit, o.Bytes(), e.Bytes(), injected, nil
 }
